@@ -183,6 +183,101 @@ def detrend_1d(arr):
     trend = slope * np.arange(m, dtype=arr.dtype) + intercept
     return arr - trend.astype(arr.dtype)
 ''',
+    "running_filter": '''
+def running_filter(array, window, method="mean"):
+    filter_methods = {"mean": bn.move_mean, "median": bn.move_median}
+    array = np.asarray(array)
+    filter_func = filter_methods.get(method)
+    if filter_func is None:
+        raise ValueError("not recognized")
+    pad_size = (window // 2, window // 2) if window % 2 else (window // 2, window // 2 - 1)
+    padded_ar = np.pad(array, pad_size, "symmetric")
+    filtered_ar = filter_func(padded_ar, window)
+    return filtered_ar[window - 1 :]
+''',
+    "downsample_1d": '''
+def downsample_1d(array, factor, method="mean"):
+    if not isinstance(array, np.ndarray) or array.ndim != 1:
+        raise ValueError("1D")
+    if factor <= 0 or not isinstance(factor, int):
+        raise ValueError("positive")
+    if factor > array.size:
+        raise ValueError("size")
+    if method == "mean":
+        return kernels.downsample_1d_mean(array, factor)
+    if method == "median":
+        nsamps_new = (array.size // factor) * factor
+        return np.median(array[:nsamps_new].reshape(-1, factor), axis=1)
+    raise ValueError("method")
+''',
+    "downsample_2d": '''
+def downsample_2d(array, factors, method="mean"):
+    factor1, factor2 = factors
+    if not isinstance(array, np.ndarray) or array.ndim != 2:
+        raise ValueError("2D")
+    if not all(isinstance(f, int) and f > 0 for f in (factor1, factor2)):
+        raise ValueError("positive")
+    if method not in {"mean", "median"}:
+        raise ValueError("method")
+    np_op = getattr(np, method)
+    dim1, dim2 = array.shape
+    new_dim1 = dim1 // factor1
+    new_dim2 = dim2 // factor2
+    new_shape = (new_dim1, factor1, new_dim2, factor2)
+    return np_op(array[: new_dim1 * factor1, : new_dim2 * factor2].reshape(new_shape), axis=(1, 3))
+''',
+    "downsample_2d_flat": '''
+def downsample_2d_flat(array, factor1, factor2, dim1, dim2, method="mean"):
+    if not isinstance(array, np.ndarray) or array.ndim != 1:
+        raise ValueError("1D")
+    if factor1 <= 0 or not isinstance(factor1, int):
+        raise ValueError("f1")
+    if factor2 <= 0 or not isinstance(factor2, int):
+        raise ValueError("f2")
+    if len(array) != dim1 * dim2:
+        raise ValueError("len")
+    if method == "mean":
+        return kernels.downsample_2d_mean_flat(array, factor1, factor2, dim1, dim2)
+    if method == "median":
+        new_dim1 = dim1 // factor1
+        new_dim2 = dim2 // factor2
+        new_shape = (new_dim1, factor1, new_dim2, factor2)
+        arr_2d = array.reshape(dim1, dim2)[: new_dim1 * factor1, : new_dim2 * factor2]
+        result = np.median(arr_2d.reshape(new_shape), axis=(1, 3))
+        return result.ravel()
+    raise ValueError("method")
+''',
+    "read_subints": '''
+def read_subints(self, startsub, nsubs, poln_select=1, scloffs=True, weights=True):
+    data_list = []
+    for isub in range(startsub, startsub + nsubs):
+        sdata = self.read_subint_pol(isub, poln_select=poln_select, scloffs=scloffs, weights=weights)
+        data_list.append(sdata)
+    data = np.concatenate(data_list)
+    if self.sub_hdr.freqs.foff > 0:
+        data = np.fliplr(data)
+    return data
+''',
+    "read_subint": '''
+def read_subint(self, isub, scloffs=True, weights=True):
+    sdata = self._fits["SUBINT"].data[isub]["DATA"]
+    sdata = sdata.squeeze()
+    if self.bitsinfo.unpack:
+        data = unpack(sdata.ravel(), self.bitsinfo.nbits)
+        data = data.reshape((sdata.shape[0] * self.bitsinfo.bitfact, sdata.shape[1], sdata.shape[2]))
+    else:
+        data = np.array(sdata)
+    if data.shape != self.sub_hdr.subint_shape:
+        raise ValueError("TPF")
+    if scloffs or weights:
+        data = data.astype(np.float32, copy=False)
+    if scloffs:
+        data -= self.sub_hdr.zero_off
+        data = data * self.read_scales(isub) + self.read_offsets(isub)
+    if weights:
+        data *= self.read_weights(isub)
+    return data
+''',
     "compute_online_moments_basic": '''
 def compute_online_moments_basic(array, moments, startflag=0):
     nchans = moments.shape[0]
@@ -344,7 +439,14 @@ class Signature:
                 counts[d.var] = counts.get(d.var, 0) + 1
                 if d.var not in order:
                     order.append(d.var)
-        multi = [v for v in order if counts[v] > 1 or any(dd.kind in ("aug", "unpack") for dd in flow.defs if dd.var == v)]
+        def is_message(v: str) -> bool:
+            ds = [dd for dd in flow.defs if dd.var == v]
+            return bool(ds) and all(dd.kind == "assign" and isinstance(dd.value, (ast.JoinedStr, ast.Constant)) and
+                                    (isinstance(dd.value, ast.JoinedStr) or isinstance(dd.value.value, str)) for dd in ds)
+
+        self.messages = {v for v in order if is_message(v)}
+        multi = [v for v in order if v not in self.messages and
+                 (counts[v] > 1 or any(dd.kind in ("aug", "unpack") for dd in flow.defs if dd.var == v))]
         fn = _Rename({v: f"$v{i}" for i, v in enumerate(multi)}).visit(fn)
         # returned / locally allocated arrays by order
         fi = _fi(fn)
@@ -360,6 +462,7 @@ class Signature:
         self.flow = Flow(fi)
         self.loopvars = set(mapping.values())
         self.facts: set[tuple] = set()
+        self._seq: dict[str, int] = {}
         self._collect(fn.body, ())
 
     def _canon(self, e: ast.AST, at: ast.AST, keep: set[str] = frozenset()) -> str:
@@ -375,6 +478,13 @@ class Signature:
             return penv.atom_name(ex)
         return norm(t)
 
+    def _next(self, target: str) -> int:
+        """Position of this update among the updates of the same target (program order): the order of successive
+        updates of one variable/element is part of the function computed."""
+        k = self._seq.get(target, 0)
+        self._seq[target] = k + 1
+        return k
+
     def _collect(self, stmts, ctx: tuple) -> None:
         for st in stmts:
             if isinstance(st, ast.For):
@@ -389,13 +499,17 @@ class Signature:
                 tgts = st.targets[0].elts if isinstance(st.targets[0], ast.Tuple) else [st.targets[0]]
                 vals = st.value.elts if isinstance(st.value, ast.Tuple) and len(st.value.elts) == len(tgts) else None
                 for i, t in enumerate(tgts):
+                    if isinstance(t, ast.Name) and t.id in getattr(self, "messages", ()):
+                        continue  # error-message text is not part of the computed function
                     if isinstance(t, ast.Name) and not t.id.startswith("$"):
                         continue  # single-definition temporary: substituted where used
                     v = vals[i] if vals is not None else st.value
                     tag = f"[{i}]" if vals is None and len(tgts) > 1 else ""
-                    self.facts.add(("set", self._target(t, st), "=", self._canon(v, st) + tag, ctx))
+                    tt = self._target(t, st)
+                    self.facts.add(("set", tt, "=", self._canon(v, st) + tag, ctx, self._next(tt)))
             elif isinstance(st, ast.AugAssign):
-                self.facts.add(("set", self._target(st.target, st), type(st.op).__name__ + "=", self._canon(st.value, st), ctx))
+                tt = self._target(st.target, st)
+                self.facts.add(("set", tt, type(st.op).__name__ + "=", self._canon(st.value, st), ctx, self._next(tt)))
             elif isinstance(st, ast.Return):
                 self.facts.add(("ret", self._canon(st.value, st) if st.value is not None else "None", ctx))
             elif isinstance(st, ast.Expr):
